@@ -1,4 +1,5 @@
 import TakVerif.Proofs.PvHeadAnalyze
+import TakVerif.Proofs.PvHeadNonEmpty
 import TakVerif.Proofs.SearchToy
 import TakVerif.Proofs.ApplyCfg
 import TakVerif.Proofs.TPSRead
@@ -124,6 +125,18 @@ theorem analyzeAll_heads_generated {g : Game P M} {o : Oracle M} {Q : M → Prop
     Sat (analyzeAll g cfg o p s) (fun x => EngOK g Q D x.2 ∧
       ∀ l ∈ x.1.1, (∀ y ∈ l, Q y) ∧ ∃ y ys, l = y :: ys ∧ Accepts g p y) :=
   analyzeAll_lines hP hord cfg p hN hgen hmove hev s hs hD
+
+/-- **an `Analyze` that is not cancelled reports a move**: when the cancel flag is never set, `Cfg.Depth ≥ 1` and the
+position is not over, the returned PV is not empty — every configuration, **any** engine state, any game.  (With
+`analyze_pv_head_generated`: its head is then a legal move.  A cancelled call may return the empty PV; the TEI engine
+then writes no `bestmove`, `GetMove` returns the zero move.) -/
+theorem analyze_pv_nonempty {g : Game P M} {o : Oracle M} (hnc : NoCancel o) (cfg : Search.Cfg) (hdepth : 1 ≤ cfg.depth)
+    (p : P) (hov : g.over p = false) (s : Eng M) :
+    Sat (analyze g cfg o p s) (fun x => x.1.1 ≠ []) :=
+  analyze_nonempty hnc cfg hdepth p hov s
+
+/-- its hypotheses on the heap game: the quiet oracle never cancels, a heap of 7 is not over -/
+example : NoCancel (Oracle.quiet : Oracle Nat) ∧ Toy.game.over 7 = false := ⟨Toy.quiet_nc, rfl⟩
 
 /-- **provenance alone** needs nothing about the game: every move of the returned PV is a `Q`-move and the engine
 state stays `EngOK`, whatever the position (finished, without moves, …) -/
